@@ -44,7 +44,7 @@ limitations under the License.
     //> call coroutine(method):
     ::pydjinni::jni::ScopedJni jni {};
     const auto& data = ::pydjinni::JniClass<{{ type_def.jni.translator }}>::get();
-    {{ "auto jret = " if method.return_type_ref or method.asynchronous }}jni.env->{{ method.jni.routine_name }}(Handle::get().get(), data.method_{{ method.java.name }}
+    {{ ("auto jret = (" ~ method.jni.return_type_spec ~ ")") if method.return_type_ref or method.asynchronous }}jni.env->{{ method.jni.routine_name }}(Handle::get().get(), data.method_{{ method.java.name }}
     /*>- for parameter in method.parameters -*/
         , ::pydjinni::get({{ parameter.jni.translator }}::fromCpp(jni.env, {{ parameter.cpp.name }}))
     /*>- endfor -*/
